@@ -170,6 +170,12 @@ func formatterGuard(c *Ctx, cd Cond, depth int) (ok bool, desc string) {
 			return true, d
 		}
 	}
+	// a lookup in a read-only table keyed by the node's own kind (a kind switch written as a table)
+	if tab, idx, isOK, _ := tableLookup(c.P, cd.V); tab != nil && isOK {
+		if _, f, ok := fieldLoadOf(stripChange(idx)); ok && f == "Kind" {
+			return true, "own kind, through the read-only table " + tab.g.Name()
+		}
+	}
 	// calls
 	if call, ok := cd.V.(*ssa.Call); ok {
 		name := calleeName(call)
